@@ -130,6 +130,11 @@ def run(ctx):
                            "procedure argument in order, error when the list is too short")
     from . import listtables
     d_tables = listtables.rule_list_library(ctx, "C11-tables")
+    # apply is native: the table of the builtin (evaltables.apply_native_table) — (apply P a1..ak (l1 l2)) for k = 0..3 hands P the
+    # leading arguments followed by the elements of the list, in order; a last argument that is not a list is an error
+    ctx.rule("C11-apply", "apply spreads its last argument behind the leading ones, in order (table of the native procedure)")
+    from . import evaltables as _et11
+    _et11.rule_apply_native(ctx, "C11-apply")
 
     def _old_shape_rules():
         # ------------------------------------------------------------------ C11-cxr
